@@ -24,6 +24,8 @@ func c20(c *Ctx) {
 
 	fetch := c.G.Fetchers(core.ReaderPkgs)
 	reach := c.G.ReachersOf(fetch)
+	// loaders: the fetchers plus their thin wrappers (a cache-checking front that hands a part of its parameter to the fetcher)
+	loaders := c.G.Loaders(core.ReaderPkgs)
 	// control package: treat its own load site as a fetcher for the control run
 	ctlFetch := c.G.Fetchers(map[string]bool{core.Rel(core.ControlPkg): true})
 	ctlReach := c.G.ReachersOf(ctlFetch)
@@ -114,7 +116,7 @@ func c20(c *Ctx) {
 		k := 0
 		for _, ci := range core.CallsIn(fn) {
 			call, ok := ci.(*ssa.Call)
-			if !ok || !fetch[call.Call.StaticCallee()] || len(call.Call.Args) < 2 {
+			if !ok || !loaders[call.Call.StaticCallee()] || len(call.Call.Args) < 2 || loaders[fn] {
 				continue
 			}
 			// the loader's link parameter: the argument of PBLink type
@@ -278,12 +280,12 @@ func c20(c *Ctx) {
 	// ---- R20.3
 	n3 := 0
 	// (a) recursive walks: reuse the walk-shape check of C06 on every function that loads in a links loop and recurses
-	for _, fn := range c.hamtWalkers(fetch) {
+	for _, fn := range c.hamtWalkers(loaders) {
 		n3++
 		saved := c.R
 		tmp := core.NewReport("tmp", "")
 		c.R = tmp
-		c.checkWalkComplete(fn, fetch)
+		c.checkWalkComplete(fn, loaders)
 		c.R = saved
 		var bad []string
 		for _, o := range tmp.Obls {
@@ -297,13 +299,13 @@ func c20(c *Ctx) {
 	// or map in that loop (it must be descended into, or handed to a cursor, before the next link is looked at)
 	for _, fn := range c.G.Funcs() {
 		rel, ok := c.P.PkgOf(fn)
-		if !ok || rel != "hamt" || fn.Synthetic != "" || fetch[fn] {
+		if !ok || rel != "hamt" || fn.Synthetic != "" || loaders[fn] {
 			continue
 		}
 		ord := 0
 		for _, ci := range core.CallsIn(fn) {
 			call, ok := ci.(*ssa.Call)
-			if !ok || !fetch[call.Call.StaticCallee()] || !core.InCycle(call.Block()) {
+			if !ok || !loaders[call.Call.StaticCallee()] || !core.InCycle(call.Block()) {
 				continue
 			}
 			child := extractOf(call, 0)
